@@ -33,6 +33,24 @@ macro_rules! bi_impl {
                     ];
                     show(&w(0).deduce(&conds, x[10]))
                 }
+                "bassoc_mul" | "bassoc_comul" => {
+                    // (x.y).z and x.(y.z), 8 numbers
+                    let (a, b, cc) = (w(0), w(4), w(8));
+                    let (l, r) = if c.op == "bassoc_mul" {
+                        (a.mul(&b).mul(&cc), a.mul(&b.mul(&cc)))
+                    } else {
+                        (a.comul(&b).comul(&cc), a.comul(&b.comul(&cc)))
+                    };
+                    format!("{} {}", show(&l), &show(&r)[3..])
+                }
+                "bdemorgan" => {
+                    // comul(neg x, neg y) and neg(mul(x, y)), 8 numbers
+                    let neg = |o: &BOpinion<$V>| BOpinion::<$V>::new_unchecked(*o.d(), *o.b(), *o.u(), 1.0 - *o.a());
+                    let (a, b) = (w(0), w(4));
+                    let l = neg(&a).comul(&neg(&b));
+                    let r = neg(&a.mul(&b));
+                    format!("{} {}", show(&l), &show(&r)[3..])
+                }
                 "btunc" => show(&w(0).trans_unc(x[4])),
                 "btopp" => show(&w(0).trans_opp(x[4], x[5])),
                 "btbsr" => show(&w(0).trans_bsr(x[4])),
